@@ -182,6 +182,10 @@ where
             }
             self._append_slice(&[ch])?;
         } else {
+            // Starting a new label also appends its length octet.
+            if len >= 253 {
+                return Err(PushError::LongName);
+            }
             self.head = Some(len);
             self._append_slice(&[0, ch])?;
         }
